@@ -14,11 +14,14 @@ use serde_json::{Value, json};
 
 use crate::enc;
 
-fn optimizer_for(db: &Database) -> Optimizer {
+/// The optimizer a statement of this database is planned with: same catalog, same (real or
+/// mocked) statistics, same storage configuration as `Database::run` uses.
+async fn optimizer_for(db: &Database) -> Optimizer {
     let (catalog, storage) = db.verif_parts();
+    let stat = db.verif_statistics().await.unwrap_or_default();
     Optimizer::new(
         catalog,
-        Statistics::default(),
+        stat,
         Config {
             enable_range_filter_scan: storage.support_range_filter_scan(),
             table_is_sorted_by_primary_key: storage.table_is_sorted_by_primary_key(),
@@ -81,7 +84,7 @@ pub async fn rewrite(db: &Database, cmd: &Value) -> Value {
     let sql = cmd["sql"].as_str().unwrap_or("");
     let max_matches = cmd["max_matches"].as_u64().unwrap_or(3) as usize;
     let max_pool = cmd["max_pool"].as_u64().unwrap_or(6) as usize;
-    let opt = optimizer_for(db);
+    let opt = optimizer_for(db).await;
     let only: Option<HashSet<String>> = cmd["rules"]
         .as_array()
         .map(|a| a.iter().filter_map(|x| x.as_str().map(|s| s.to_string())).collect());
@@ -311,7 +314,7 @@ fn plan_types(plan: &RecExpr, catalog: risinglight::catalog::RootCatalogRef) -> 
 pub async fn plancheck(db: &Database, cmd: &Value) -> Value {
     let sql = cmd["sql"].as_str().unwrap_or("");
     let (catalog, _) = db.verif_parts();
-    let opt = optimizer_for(db);
+    let opt = optimizer_for(db).await;
     let bound = match bind_sql(db, sql) {
         Ok(p) => p,
         Err(e) => return json!({"ok": false, "kind": "bind", "err": e}),
@@ -351,8 +354,8 @@ pub async fn plancheck(db: &Database, cmd: &Value) -> Value {
            "plan": optimized.to_string().chars().take(400).collect::<String>()})
 }
 
-pub fn rule_names(db: &Database) -> Value {
-    let opt = optimizer_for(db);
+pub async fn rule_names(db: &Database) -> Value {
+    let opt = optimizer_for(db).await;
     json!({"ok": true, "rules": opt.verif_rule_names()})
 }
 
